@@ -164,7 +164,28 @@ def generic_sequence_update(
         )
 
 
+def inside_removed_code(change, removed_nodes):
+    node = getattr(change.node, "parent", None)
+    while node is not None:
+        if id(node) in removed_nodes:
+            return True
+        node = getattr(node, "parent", None)
+    return False
+
+
 def apply_all(all_changes: List[Change], recorder: ChangeRecorder):
+    # changes of inner snapshots are ignored if the code which contains them is removed or replaced
+    removed_nodes = {
+        id(change.node)
+        for change in all_changes
+        if isinstance(change, (Delete, Replace)) and change.node is not None
+    }
+    all_changes = [
+        change
+        for change in all_changes
+        if change.node is None or not inside_removed_code(change, removed_nodes)
+    ]
+
     by_parent: Dict[
         EnhancedAST, List[Union[Delete, DictInsert, ListInsert, CallArg]]
     ] = defaultdict(list)
